@@ -15,13 +15,14 @@ Definition show_loc (l : loc) : string :=
   | LOrd => "FetchAdd ord"
   | LCnt m i => "FetchAdd cnt:" ++ dec m ++ ":" ++ decn i
   | LSlot m i j => "Lock slot:" ++ dec m ++ ":" ++ decn i ++ ":" ++ decn j
+  | LLeaf m i j l => "Lock leaf:" ++ dec m ++ ":" ++ decn i ++ ":" ++ decn j ++ ":" ++ decn l
   | LErrs => "Lock errs"
   end.
 
 (* after the schedule: the remaining threads run to completion in thread order
-   (a call performs at most 4 atomic operations) *)
+   (a call performs at most 4 atomic operations, plus one per further slot of a composite single-use value) *)
 Definition completion (threads : list (list (N * N))) : list nat :=
-  concat (map (fun '(tid, cs) => repeat tid (4 * length cs)%nat) (combine (seq 0 (length threads)) threads)).
+  concat (map (fun '(tid, cs) => repeat tid (6 * length cs)%nat) (combine (seq 0 (length threads)) threads)).
 
 Definition show_thread_out (m_a : list (N * N)) (out : list action) : string :=
   join "|" (map (fun '((m, a), act) => show_action m a act) (combine m_a out)).
